@@ -174,6 +174,8 @@ func init() {
 			Run: func(P *Program, R *Report) { revocationRandomizersRule(P, R) }},
 		Rule{ID: "C07.j", Explain: "each drawn randomiser is the one used under its name: the by-name lookups of the non-revocation proof commitment (Secret, Randomizer) answer every name with that name's own entry (same rule as C11.l); a lookup that answers one name with another's randomiser leaves a drawn randomiser unused and lets two responses share one.",
 			Run: func(P *Program, R *Report) { lookupFaithfulRule(P, R, "C07.j", revocationLookups[:2]) }},
+		Rule{ID: "C07.k", Explain: "a failed generator is noticed: the error of every call to RandomBigInt / RandomPrimeInRange / RandInt / io.ReadFull / rand.Read in the module is looked at, so that no randomiser is nil or left over from an earlier call (same rule as C08.g: the error a call returns has a use - a nil test or a return - before it is overwritten, shadowed or left behind).",
+			Run: func(P *Program, R *Report) { errorResultsUsedRule(P, R, "C07.k", func(fn *ssa.Function) bool { return true }, func(n string) bool { return strings.Contains(n, "RandomBigInt") || strings.Contains(n, "RandomPrimeInRange") || strings.Contains(n, "RandInt") || strings.Contains(n, "ReadFull") || strings.HasSuffix(n, "rand.Read") || strings.Contains(n, "RandomQR") || strings.Contains(n, "NewCPRNG") }, 15) }},
 	)
 }
 
